@@ -26,7 +26,6 @@ where
     Init,
     Seek(Inflater<R>),
     Finish(TryBuffered<Inflater<R>>),
-    Done(VirtualPosition),
 }
 
 pin_project! {
@@ -275,15 +274,10 @@ where
 
                     self.stream.replace(stream);
 
-                    Some(SeekState::Done(pos))
-                }
-                SeekState::Done(p) => {
-                    if pos == p {
-                        self.seek_state = Some(SeekState::Done(pos));
-                        return Poll::Ready(Ok(pos));
-                    } else {
-                        Some(SeekState::Init)
-                    }
+                    // The next call starts a new seek, even when it is to the same position.
+                    self.seek_state = Some(SeekState::Init);
+
+                    return Poll::Ready(Ok(pos));
                 }
             };
         }
@@ -500,5 +494,35 @@ mod tests {
         ));
 
         assert_eq!(buf, b"noodles");
+    }
+
+    #[tokio::test]
+    async fn test_poll_seek_to_the_same_position() -> Result<(), Box<dyn std::error::Error>> {
+        use std::future::poll_fn;
+
+        #[rustfmt::skip]
+        let data = [
+            // block 0, udata = b"noodles"
+            0x1f, 0x8b, 0x08, 0x04, 0x00, 0x00, 0x00, 0x00, 0x00, 0xff, 0x06, 0x00, 0x42, 0x43,
+            0x02, 0x00, 0x22, 0x00, 0xcb, 0xcb, 0xcf, 0x4f, 0xc9, 0x49, 0x2d, 0x06, 0x00, 0xa1,
+            0x58, 0x2a, 0x80, 0x07, 0x00, 0x00, 0x00,
+            // EOF block
+            0x1f, 0x8b, 0x08, 0x04, 0x00, 0x00, 0x00, 0x00, 0x00, 0xff, 0x06, 0x00, 0x42, 0x43,
+            0x02, 0x00, 0x1b, 0x00, 0x03, 0x00, 0x00, 0x00, 0x00, 0x00, 0x00, 0x00, 0x00, 0x00,
+        ];
+
+        let mut reader = Reader::new(Cursor::new(&data));
+        let position = VirtualPosition::try_from((0, 3))?;
+
+        for _ in 0..2 {
+            let mut r = &mut reader;
+            poll_fn(|cx| Pin::new(&mut r).poll_seek(cx, position)).await?;
+
+            let mut buf = Vec::new();
+            reader.read_to_end(&mut buf).await?;
+            assert_eq!(buf, b"dles");
+        }
+
+        Ok(())
     }
 }
